@@ -727,6 +727,193 @@ def r7_limited_every_path(r, facts):
     r.floor(6, 'LimitedBuf methods')
 
 
+def r9_iovec_wrappers(r, facts):
+    """IoSlice / IoMutSlice (the iovec views every vectored request and every continuation is built from): `len()` is
+    `iov_len`, `ptr()` is `iov_base`; `set_len(new_len)` stores `new_len` in `iov_len` on every path; `skip(n)` advances
+    `iov_base` by `n` and takes `n` off `iov_len` on every path.  (The composites' bookkeeping — C10.R9 — is phrased in
+    terms of these calls; it means nothing if they do something else.)"""
+    n_f = 0
+    for ty in ('io::traits::IoSlice', 'io::traits::IoMutSlice', 'unix::IoSlice', 'unix::IoMutSlice'):
+        for meth in ('len', 'ptr', 'set_len', 'skip'):
+            f = facts.fn_opt('%s::%s' % (ty, meth))
+            if f is None:
+                continue
+            n_f += 1
+            name = '%s::%s' % ('::'.join(ty.rsplit('::', 2)[-2:]), meth)
+            eb = ExprBuilder(f, multi='phi')
+            # the platform-independent view only hands the call to the platform's iovec view of the same name (checked below)
+            dele = [(loc, t) for loc, t in f.calls() if re.search(r'Io(Mut)?Slice::%s$' % meth, t.get('callee') or '') and (t.get('callee') or '') != f.path
+                    and not f.blocks[loc[0]]['cleanup'] and t['args'] and fam.last_field(eb.operand(t['args'][0])) == '0']
+            if dele and facts.fn_opt(dele[0][1].get('callee')) is not None:
+                if meth in ('len', 'ptr'):
+                    ok = all(is_local(t['dest'], 0) or any(x[0] == 'call' and x[1] == t['callee'] for rx in ret_exprs(f) for x in subexprs(rx)) for loc, t in dele)
+                else:
+                    same = [loc for loc, t in dele if (lambda e: e[0] == 'arg' and e[1] == 2)(eb.operand(t['args'][-1]))]
+                    ok = f.forward_paths_hit([Loc(0, 0)], f.returns(), blockers=same) is None
+                r.inst('%s delegates to %s' % (name, dele[0][1]['callee']), f.where())
+                r.require(ok, 'iovec:%s/delegation' % name, '%s does not hand the call (with the same argument, on every path) to the iovec view it wraps' % meth, f.where())
+                continue
+
+            def arg2(e):
+                while e[0] == 'cast' or (e[0] == 'call' and e[1].endswith(('cast_signed', 'cast_unsigned')) and len(e[2]) == 1):
+                    e = e[4] if e[0] == 'cast' else e[2][0]
+                return e[0] == 'arg' and e[1] == 2
+            if meth in ('len', 'ptr'):
+                want = 'iov_len' if meth == 'len' else 'iov_base'
+                rets = ret_exprs(f)
+                ok = bool(rets) and all(any(fam.last_field(y) == want for y in subexprs(x)) for x in rets)
+                r.inst('%s returns %s' % (name, want), f.where())
+                r.require(ok, 'iovec:%s' % name, '%s does not return the %s of the iovec: %s' % (meth, want, [str(x)[:80] for x in rets]), f.where())
+                continue
+            stores = {}
+            for loc, s_ in f.assigns():
+                fl = [p_.get('name') for p_ in s_['lhs']['p'] if p_['k'] == 'field']
+                if fl[-1:] in (['iov_len'], ['iov_base']) and not f.blocks[loc[0]]['cleanup']:
+                    stores.setdefault(fl[-1], []).append((loc, eb.rvalue(s_['rv'])))
+            if meth == 'set_len':
+                good = [loc for loc, e in stores.get('iov_len', []) if arg2(e)]
+                r.inst('%s stores new_len at %d site(s)' % (name, len(good)), f.where())
+                for loc, e in stores.get('iov_len', []):
+                    r.require(arg2(e), 'iovec:%s/value' % name, 'set_len stores %s, not the requested length' % (e,), f.where(loc))
+                hit = f.forward_paths_hit([Loc(0, 0)], f.returns(), blockers=good)
+                r.require(hit is None, 'iovec:%s/stored' % name, 'a path through set_len leaves iov_len unchanged: a buffer the composites emptied / trimmed is handed to the kernel in full again', f.where())
+            else:
+                def dec(e):
+                    while e[0] == 'cast' or (e[0] == 'proj' and e[2] == ('.0',) and e[1][0] == 'bin'):
+                        e = e[4] if e[0] == 'cast' else e[1]
+                    return (e[0] == 'bin' and e[1].startswith('Sub') and fam.last_field(e[2]) == 'iov_len' and arg2(e[3])) or \
+                           (e[0] == 'call' and e[1].endswith(('wrapping_sub', 'saturating_sub', 'unchecked_sub')) and len(e[2]) == 2 and fam.last_field(e[2][0]) == 'iov_len' and arg2(e[2][1]))
+
+                def adv(e):
+                    for x in subexprs(e):
+                        if x[0] == 'call' and re.search(r'::(offset|add|byte_add|byte_offset|wrapping_add|wrapping_byte_add)$', x[1]) and len(x[2]) == 2 \
+                                and any(fam.last_field(y) == 'iov_base' for y in subexprs(x[2][0])) and arg2(x[2][1]):
+                            return True
+                    return False
+                g_len = [loc for loc, e in stores.get('iov_len', []) if dec(e)]
+                g_base = [loc for loc, e in stores.get('iov_base', []) if adv(e)]
+                r.inst('%s: iov_base advanced at %d site(s), iov_len decreased at %d site(s)' % (name, len(g_base), len(g_len)), f.where())
+                for loc, e in stores.get('iov_len', []):
+                    r.require(dec(e), 'iovec:%s/len-value' % name, 'skip stores %s in iov_len, expected iov_len - n' % (str(e)[:120],), f.where(loc))
+                for loc, e in stores.get('iov_base', []):
+                    r.require(adv(e), 'iovec:%s/base-value' % name, 'skip stores %s in iov_base, expected iov_base advanced by n' % (str(e)[:120],), f.where(loc))
+                hit = f.forward_paths_hit([Loc(0, 0)], f.returns(), blockers=g_len)
+                r.require(hit is None, 'iovec:%s/len' % name, 'a path through skip does not take n off iov_len: the request runs n bytes past the end of the buffer', f.where())
+                hit = f.forward_paths_hit([Loc(0, 0)], f.returns(), blockers=g_base)
+                r.require(hit is None, 'iovec:%s/base' % name, 'a path through skip does not advance iov_base: bytes that were already transferred are transferred again', f.where())
+    r.require(n_f >= 14, 'iovec/functions', 'expected len/ptr/set_len of IoSlice and IoMutSlice and IoSlice::skip in both layers, found %d' % n_f)
+    r.floor(14)
+
+
+
+def r10_init_bookkeeping(r, facts):
+    """what `set_init(n)` must do where it is not a plain hand-over: `Vec<u8>` grows by exactly n (`set_len(len + n)`), and
+    `LimitedBuf` takes n off its limit on every path (a limited buffer filled by several transfers — read_n — never takes
+    more than the limit in total)."""
+    n_i = 0
+    for trait in ('io::traits::BufMut', 'io::traits::BufMutSlice'):
+        for i, f in facts.impl_fns(trait, 'set_init'):
+            eb = ExprBuilder(f, multi='phi')
+
+            def is_n(e):
+                while e[0] == 'cast':
+                    e = e[4]
+                return e[0] == 'arg' and e[1] == 2
+            if i['self'].startswith('std::vec::Vec<u8'):
+                n_i += 1
+                sl = [(loc, t) for loc, t in f.calls() if (t.get('callee') or '').endswith('Vec::<T, A>::set_len') and not f.blocks[loc[0]]['cleanup']]
+                ok = []
+                for loc, t in sl:
+                    e = eb.operand(t['args'][1])
+                    while e[0] == 'cast' or (e[0] == 'proj' and e[2] == ('.0',) and e[1][0] == 'bin'):
+                        e = e[4] if e[0] == 'cast' else e[1]
+                    grows = (e[0] == 'bin' and e[1].startswith('Add') and ((is_n(e[2]) and str(e[3]).find('::len') >= 0) or (is_n(e[3]) and str(e[2]).find('::len') >= 0))) or \
+                            (e[0] == 'call' and e[1].endswith(('wrapping_add', 'saturating_add', 'unchecked_add')) and len(e[2]) == 2 and ((is_n(e[2][0]) and '::len' in str(e[2][1])) or (is_n(e[2][1]) and '::len' in str(e[2][0]))))
+                    r.require(grows, 'Vec::set_init/value', 'the vector\'s new length is %s, expected len() + n' % (str(e)[:120],), f.where(loc))
+                    if grows:
+                        ok.append(loc)
+                r.inst('Vec<u8>::set_init: set_len(len + n) at %d site(s)' % len(ok), f.where())
+                hit = f.forward_paths_hit([Loc(0, 0)], f.returns(), blockers=ok)
+                r.require(hit is None, 'Vec::set_init/grows', 'a path through Vec<u8>::set_init does not grow the vector by n: the bytes the kernel wrote never become part of it', f.where())
+            elif i['self'].startswith('io::traits::LimitedBuf'):
+                n_i += 1
+                ok = []
+                for loc, s_ in f.assigns():
+                    fl = [p_.get('name') for p_ in s_['lhs']['p'] if p_['k'] == 'field']
+                    if fl[-1:] != ['limit'] or f.blocks[loc[0]]['cleanup']:
+                        continue
+                    e = eb.rvalue(s_['rv'])
+                    while e[0] == 'cast' or (e[0] == 'proj' and e[2] == ('.0',) and e[1][0] == 'bin'):
+                        e = e[4] if e[0] == 'cast' else e[1]
+                    less = (e[0] == 'bin' and e[1].startswith('Sub') and fam.last_field(e[2]) == 'limit' and is_n(e[3])) or \
+                           (e[0] == 'call' and e[1].endswith(('saturating_sub', 'wrapping_sub', 'checked_sub')) and len(e[2]) == 2 and fam.last_field(e[2][0]) == 'limit' and is_n(e[2][1]))
+                    r.require(less, 'LimitedBuf::set_init/%s/value' % trait.rsplit('::', 1)[1], 'the limit becomes %s, expected limit - n' % (str(e)[:120],), f.where(loc))
+                    if less:
+                        ok.append(loc)
+                r.inst('LimitedBuf::set_init (%s): limit -= n at %d site(s)' % (trait.rsplit('::', 1)[1], len(ok)), f.where())
+                hit = f.forward_paths_hit([Loc(0, 0)], f.returns(), blockers=ok)
+                r.require(hit is None, 'LimitedBuf::set_init/%s/limit' % trait.rsplit('::', 1)[1], 'a path through LimitedBuf::set_init does not take n off the limit: the next transfer into the same buffer may again take up to the full limit', f.where())
+    r.require(n_i >= 3, 'set_init/sites', 'expected set_init of Vec<u8> and of both LimitedBuf impls, found %d' % n_i)
+    r.floor(3)
+
+
+
+def r11_limit_walk(r, facts):
+    """LimitedBuf::as_iovecs[_mut]: the limit is distributed over the iovecs front to back.  The count of bytes still allowed
+    is a local initialised from `self.limit`; an element that fits (`len <= left`) takes its length off the count; the
+    first that does not is trimmed to the count (`set_len(left)`) and the count becomes 0 (so every later element is trimmed
+    to nothing).  Without the decrement every element may take the full limit: the kernel is allowed limit x N bytes."""
+    n_w = 0
+    for trait, meth in (('io::traits::BufSlice', 'as_iovecs'), ('io::traits::BufMutSlice', 'as_iovecs_mut')):
+        for i, f in facts.impl_fns(trait, meth):
+            if not i['self'].startswith('io::traits::LimitedBuf'):
+                continue
+            n_w += 1
+            name = 'LimitedBuf::%s' % meth
+            eg = ExprBuilder(f, multi='leaf')
+            R = counter_local(f, lambda e: fam.last_field(e) == 'limit', eg)
+            if not r.require(R is not None, '%s/walk/counter' % name, 'the count of bytes still allowed (initialised from self.limit, decreased per element, 0 after the trimmed element) was not found', f.where()):
+                continue
+
+            def is_r(e):
+                while e[0] == 'cast':
+                    e = e[4]
+                return e[0] == 'local' and e[1] == R
+            trims = [(loc, t) for loc, t in f.calls() if (t.get('callee') or '').endswith('Slice::set_len') and not f.blocks[loc[0]]['cleanup']]
+            if not r.require(len(trims) >= 1, '%s/walk/trim' % name, 'no element is ever trimmed (set_len)', f.where()):
+                continue
+            loc, t = trims[0]
+            r.inst('%s: limit walk with count _%d' % (name, R), f.where(loc))
+            r.require(is_r(eg.operand(t['args'][1])), '%s/walk/trim-value' % name, 'the element that does not fit is trimmed to %s, not to what is left of the limit' % (eg.operand(t['args'][1]),), f.where(loc))
+            fits_e = trim_e = None
+            for (b, tgt) in c10.controlling_switches(f, loc):
+                e = eg.operand(f.term(b)['discr'])
+                if e[0] == 'bin' and e[1] in ('Le', 'Gt', 'Lt', 'Ge') and (is_r(e[2]) != is_r(e[3])):
+                    others = [x for x in set(f.succ[b]) if x != tgt]
+                    if len(others) == 1:
+                        fits_e, trim_e = (b, others[0]), (b, tgt)
+            if not r.require(fits_e is not None, '%s/walk/test' % name, 'comparison of the element length with the count not found', f.where(loc)):
+                continue
+            dec = zero = False
+            for l, ee in getattr(f, 'counter_defs', {}).get(R, []):
+                while ee[0] == 'cast' or (ee[0] == 'proj' and ee[2] == ('.0',)):
+                    ee = ee[4] if ee[0] == 'cast' else ee[1]
+                sub = (ee[0] == 'bin' and ee[1].startswith('Sub') and is_r(ee[2]) and ee[3]) or \
+                      (ee[0] == 'call' and ee[1].endswith(('saturating_sub', 'wrapping_sub')) and len(ee[2]) == 2 and is_r(ee[2][0]) and ee[2][1]) or None
+                if sub and f.edge_dominates(fits_e, Loc(*l)) and any(x[0] == 'call' and x[1].endswith('Slice::len') for x in subexprs(sub)):
+                    dec = True
+                if ee[0] == 'const' and ee[1] == 0 and f.edge_dominates(trim_e, Loc(*l)):
+                    zero = True
+            r.require(dec, '%s/walk/decrement' % name, 'an element that fits does not take its length off the count: every element may take the full limit (the kernel is allowed N times the limit)', f.where(f.term_loc(fits_e[0])))
+            # after the trimmed element nothing more is allowed: the count becomes 0, or the walk trims/ends explicitly
+            nexts = [l for l, t2 in f.calls() if (t2.get('callee') or '') == 'std::iter::Iterator::next']
+            ends = t.get('target') is not None and f.forward_paths_hit([Loc(t['target'], 0)], nexts) is None
+            r.require(zero or ends, '%s/walk/rest' % name, 'after the trimmed element the count is not set to 0 (and the walk goes on): later elements are allowed the same remainder again', f.where(loc))
+    r.require(n_w >= 2, 'limit-walk/sites', 'expected LimitedBuf::as_iovecs and as_iovecs_mut, found %d' % n_w)
+    r.floor(2)
+
+
+
 def check(ctx):
     ctx.run('C14.R1', 'LimitedBuf.limit is never narrowed with a truncating cast', r1_limit_casts)
     ctx.run('C14.R2', 'tuples/arrays: element order and coverage in as_iovecs[_mut], set_init shape, totals', r2_order_coverage)
@@ -735,4 +922,7 @@ def check(ctx):
     ctx.run('C14.R5', 'PROV: buffer impls never return pointers into the buffer value itself', addr.prov_rule)
     ctx.run('C14.R7', 'LimitedBuf: pointer/length/capacity methods (incl. the doc-hidden parts hook) apply the limit on every return path', r7_limited_every_path)
     ctx.run('C14.R6', 'BufMut wrappers forward buffer_init iff parts', c10.r6_forwarding)
+    ctx.run('C14.R9', 'iovec views: len/ptr read, set_len stores, skip advances the base and shortens the length, on every path', r9_iovec_wrappers)
+    ctx.run('C14.R10', 'set_init bookkeeping: Vec<u8> grows by n, LimitedBuf takes n off its limit, on every path', r10_init_bookkeeping)
+    ctx.run('C14.R11', 'LimitedBuf iovecs: the limit is distributed front to back (fits: count -= len; else trim to count, count = 0)', r11_limit_walk)
     ctx.run('C14.R8', 'buffer wrappers pass set_init/buffer_init on to the inner buffer with the same count on every path (=C10.R10)', c10.r10_wrapper_hooks)
